@@ -90,6 +90,10 @@ impl Xot {
     /// ```
     pub fn append(&mut self, parent: Node, child: Node) -> Result<(), Error> {
         self.add_structure_check(Some(parent), child)?;
+        if self.internal_last_child(parent) == Some(child) {
+            // already in place
+            return Ok(());
+        }
         self.remove_consolidate_text_nodes(self.previous_sibling(child), self.next_sibling(child));
         if self.add_consolidate_text_nodes(child, self.last_child(parent), None) {
             return Ok(());
@@ -331,6 +335,10 @@ impl Xot {
     /// It is now the new first node of the parent.
     pub fn prepend(&mut self, parent: Node, child: Node) -> Result<(), Error> {
         self.add_structure_check(Some(parent), child)?;
+        if self.first_child(parent) == Some(child) {
+            // already in place
+            return Ok(());
+        }
         self.remove_consolidate_text_nodes(self.previous_sibling(child), self.next_sibling(child));
         if self.add_consolidate_text_nodes(child, None, self.first_child(parent)) {
             return Ok(());
@@ -374,10 +382,19 @@ impl Xot {
     /// ```
     pub fn insert_after(&mut self, reference_node: Node, new_sibling: Node) -> Result<(), Error> {
         self.add_sibling_check(reference_node, new_sibling)?;
-        self.remove_consolidate_text_nodes(
-            self.previous_sibling(new_sibling),
-            self.next_sibling(new_sibling),
-        );
+        if self.previous_sibling(new_sibling) == Some(reference_node) {
+            // already in place
+            return Ok(());
+        }
+        let next_node = self.next_sibling(new_sibling);
+        if self.remove_consolidate_text_nodes(self.previous_sibling(new_sibling), next_node)
+            && next_node == Some(reference_node)
+        {
+            // the reference node was the text node following the new sibling and
+            // has just been merged into the text node before it, so the new
+            // sibling already directly follows the merged text
+            return Ok(());
+        }
         if self.add_consolidate_text_nodes(
             new_sibling,
             Some(reference_node),
@@ -394,6 +411,10 @@ impl Xot {
     /// Insert a new sibling before a reference node.
     pub fn insert_before(&mut self, reference_node: Node, new_sibling: Node) -> Result<(), Error> {
         self.add_sibling_check(reference_node, new_sibling)?;
+        if self.next_sibling(new_sibling) == Some(reference_node) {
+            // already in place
+            return Ok(());
+        }
         self.remove_consolidate_text_nodes(
             self.previous_sibling(new_sibling),
             self.next_sibling(new_sibling),
